@@ -311,6 +311,9 @@ def random_history_case(rng, **fixed):
     }
     if mode == "multirate":
         case["L"]["rho"] = float(rng.choice([1e-2, 1e-3, 1e-4]))
+    if rng.random() < 0.25:
+        # the mineral is one phase of a two-phase assemblage (its own volume fraction phi)
+        case["phi"] = float(rng.choice([0.7, 0.3, rng.uniform(0.05, 0.95)]))
     case.update(fixed)
     return case
 
